@@ -92,7 +92,7 @@ class PrefetchIterator:
           self._cond.wait_for(_predicate)
           if not self._active:
             return
-      except Exception as e:  # pylint: disable=broad-except
+      except BaseException as e:  # pylint: disable=broad-except
         with self._cond:
           self._error = e
           self._active = False
